@@ -46,6 +46,18 @@ impl<C: 'static> Workers<C> {
         self.txs[&t].send(job).unwrap();
         rrx.recv().unwrap_or_else(|_| Err("worker died".into()))
     }
+    /// Start `f` on worker `t` without waiting: the receiver yields its result once it is done (the operation may park at
+    /// a gate the driver controls; until then no other job may be sent to this worker).
+    pub fn spawn<R: Send + 'static>(&mut self, t: u64, f: impl FnOnce(&mut C) -> R + Send + 'static) -> std::sync::mpsc::Receiver<Result<R, String>> {
+        self.ensure(t);
+        let (rtx, rrx) = channel();
+        let job: Job<C> = Box::new(move |c| {
+            let r = crate::catch(|| f(c));
+            let _ = rtx.send(r);
+        });
+        self.txs[&t].send(job).unwrap();
+        rrx
+    }
     /// Stop worker `t` (its context is dropped on that thread) and wait for it.
     pub fn stop_all(&mut self) {
         self.txs.clear();
